@@ -27,6 +27,7 @@ QUICK_UNITS = [
     "src/Variogram/Vario.cpp", "src/Variogram/AVario.cpp",
     "src/Neigh/ANeigh.cpp", "src/Neigh/NeighBench.cpp", "src/Neigh/NeighMoving.cpp", "src/Neigh/NeighCell.cpp", "src/Basic/Rotation.cpp", "src/Basic/Tensor.cpp", "src/LinearOp/IProjMatrix.cpp", "src/Basic/Grid.cpp",
     "src/Anamorphosis/AnamEmpirical.cpp", "src/Anamorphosis/AnamHermite.cpp", "src/Simulation/CalcSimuTurningBands.cpp", "src/Basic/Indirection.cpp", "src/Skin/Skin.cpp",
+    "src/Spatial/SpatialIndices.cpp", "src/Stats/PCA.cpp",
 ]
 
 
@@ -1108,15 +1109,23 @@ def r10_6b(prog, chk):
     chk.floor("R10.6b", n, 4)
 
 
-def r10_8(prog, chk, classes=("Vario", "AnamHermite")):
+def r10_8(prog, chk, classes=None, floor_n=10):
     """R10.8 - a calculation entry point starts from scratch.  Members that the methods of the class ACCUMULATE into
     (`m[..] += x`) must be reset (fill / assign / clear / whole assignment; a plain resize() keeps the old content) on every
     path from a public entry point to the first accumulation: otherwise a second calculation on the same object adds to the
     first one (the result depends on what was called before)."""
     n = 0
+    required = ("Vario", "AnamHermite", "SpatialIndices")
+    if classes is None:
+        # every analysed class that accumulates into a subscripted member
+        classes = sorted({f.cls for f in prog.funcs if f.cls and f.body is not None and any(
+            x["k"] in ("Assign", "OpCall") and x.get("op") == "+=" and x.get("c") and x["c"][0] is not None and x["c"][0]["k"] in ("Index", "OpCall")
+            for x in f.walk())} | set(required))
     for K in classes:
         meths = [f for f in prog.funcs if f.cls == K and f.body is not None]
         if not meths:
+            if K not in required:
+                continue
             raise facts.AnalysisBroken("class %s not analysed" % K)
         byname = {}
         for f in meths:
@@ -1147,7 +1156,10 @@ def r10_8(prog, chk, classes=("Vario", "AnamHermite")):
         def this_callees(f):
             for c in f.calls():
                 if c["k"] == "MCall" and c.get("callee") in byname and (call_obj(c) is None or call_obj(c)["k"] == "This"):
-                    for g in byname[c["callee"]]:
+                    cands = byname[c["callee"]]
+                    norm = lambda t_: (t_ or "").replace(" ", "")
+                    exact = [g for g in cands if norm(",".join(p_["t"] for p_ in g.params)) == norm(c.get("sig"))]
+                    for g in (exact or cands):
                         yield c, g
                 elif c["k"] == "PMCall":
                     for q in sorted(pm):
@@ -1166,8 +1178,16 @@ def r10_8(prog, chk, classes=("Vario", "AnamHermite")):
             def is_reset_stmt(x, fl=fl):
                 if x["k"] == "MCall" and (x.get("callee") or "").split("::")[-1] in ("fill", "assign", "clear") and root_field(call_obj(x)) == fl:
                     return True
-                if x["k"] in ("Assign", "OpCall") and x.get("op") == "=" and x.get("c") and x["c"][0] is not None and x["c"][0]["k"] == "MemberExpr" and root_field(x["c"][0]) == fl:
+                if x["k"] in ("Assign", "OpCall") and x.get("op") == "=" and x.get("c") and x["c"][0] is not None and root_field(x["c"][0]) == fl:
+                    # whole assignment, or element-wise `m[i] = v` (the element is overwritten before it is added to)
                     return True
+                if x["k"] in ("Call", "MCall") and any(a_ is not None and root_field(a_) == fl for a_ in call_args(x)):
+                    # handed to a routine as an output vector (rotateDirect(_work1, _work2), prodMatVecInPlace(x, _grad)): rewritten
+                    sig_ = [t_.strip() for t_ in (x.get("sig") or "").split(",")]
+                    for i_, a_ in enumerate(call_args(x)):
+                        if a_ is not None and root_field(a_) == fl and i_ < len(sig_) and not sig_[i_].startswith("const ") and \
+                                (sig_[i_].endswith("&") or sig_[i_].endswith("*") or sig_[i_] in ("vect", "vectint")):
+                            return True
                 return False
             # methods that reset on every path to a successful return
             resetters = set()
@@ -1194,6 +1214,24 @@ def r10_8(prog, chk, classes=("Vario", "AnamHermite")):
                     if w is None and w2 is None:
                         resetters.add(f.usr)
                         changed = True
+            # methods whose own accumulations (and those of their callees) all come after a reset on every path from their entry:
+            # calling them is not an accumulation from the caller's point of view (scratch vectors filled then adjusted in place)
+            guarded = set()
+            changed = True
+            while changed:
+                changed = False
+                for f in meths:
+                    if f.usr not in reach or f.usr in guarded or f.cfg is None:
+                        continue
+                    g_ = CFG(f)
+                    tg = {c["i"] for c, g in this_callees(f) if g.usr in reach and g.usr not in guarded} | {x["i"] for x in acc[fl].get(f.usr, [])}
+                    rc = {c["i"] for c, g in this_callees(f) if g.usr in resetters}
+                    lwr = {l["i"] for l in f.walk() if l["k"] == "For" and any(is_reset_stmt(y) or y["i"] in rc for y in walk(l))}
+                    eo = lambda blk, k, s_, lwr=lwr: not (blk.get("t") == "ForStmt" and blk.get("ts") in lwr and k == 1)
+                    if g_.search(g_.entry_pos(), is_target=lambda x: x["i"] in tg and x["i"] not in rc,
+                                 is_barrier=lambda x: is_reset_stmt(x) or x["i"] in rc, edge_ok=eo) is None:
+                        guarded.add(f.usr)
+                        changed = True
             pub = {m["usr"] for m in prog.classes.get(K, {}).get("methods", []) if m.get("access") == "public"}
             for f in sorted(meths, key=lambda x: x.line):
                 if f.usr not in reach or f.usr not in pub or f.cfg is None or f.kind != "method" or f.short.startswith("_"):
@@ -1202,20 +1240,23 @@ def r10_8(prog, chk, classes=("Vario", "AnamHermite")):
                 if f.usr in acc[fl] and not any(x["k"] in ("For", "While", "ForRange", "Do") for x in f.walk()):
                     continue
                 g_ = CFG(f)
-                accs = {c["i"] for c, g in this_callees(f) if g.usr in reach} | {x["i"] for x in acc[fl].get(f.usr, [])}
+                accs = {c["i"] for c, g in this_callees(f) if g.usr in reach and g.usr not in guarded} | {x["i"] for x in acc[fl].get(f.usr, [])}
                 rcalls = {c["i"] for c, g in this_callees(f) if g.usr in resetters}
                 if not accs:
                     continue
                 n += 1
                 chk.analysed(f)
+                # a counted loop that resets the member element by element is not skipped (the accumulation loops share its bound)
+                lwr = {l["i"] for l in f.walk() if l["k"] == "For" and any(is_reset_stmt(y) or y["i"] in rcalls for y in walk(l))}
+                eo = lambda blk, k, s_, lwr=lwr: not (blk.get("t") == "ForStmt" and blk.get("ts") in lwr and k == 1)
                 w = g_.search(g_.entry_pos(), is_target=lambda x: x["i"] in accs and x["i"] not in rcalls,
-                              is_barrier=lambda x: is_reset_stmt(x) or x["i"] in rcalls)
+                              is_barrier=lambda x: is_reset_stmt(x) or x["i"] in rcalls, edge_ok=eo)
                 ok = w is None
                 chk.ob("R10.8", "%s: %s is reset on every path before the calculation accumulates into it" % (f.sig(), fl), f.loc(), ok,
                        detail=None if ok else "a second call on the same object adds its pairs / sums to those of the first call (resize() keeps the old "
                        "content): the result depends on what was computed before", key="R10.8|%s/%d|%s" % (f.name, len(f.params), fl),
                        path=None if ok else g_.describe(w))
-    chk.floor("R10.8", n, 3)
+    chk.floor("R10.8", n, floor_n)
 
 
 def r10_9(prog, chk):
